@@ -345,28 +345,53 @@ def origin_rules(run, db):
 
 
 def dispatch_rules(run, db):
+    """'mdft' reaches the matrix-DFT engine and 'czt' the chirp-Z engine, forward routines the forward transforms and inverse routines the
+    inverse ones, with the same (array, Q, samples, shift): decided on the calls that are reached when the routine is interpreted with
+    the method string concrete (NORM for the arguments), whatever way the dispatch is written."""
+    from .common import norm_interp, capture_calls
+    E1, E2 = 'prysm.fttools.MatrixDFTExecutor.', 'prysm.fttools.ChirpZTransformExecutor.'
+    engines = {E1 + 'dft2': 'mdft.dft2', E1 + 'idft2': 'mdft.idft2', E2 + 'czt2': 'czt.czt2', E2 + 'iczt2': 'czt.iczt2',
+               E1 + 'dft2_backprop': 'mdft.dft2_backprop', E1 + 'idft2_backprop': 'mdft.idft2_backprop'}
     table = {'focus_fixed_sampling': ('mdft.dft2', 'czt.czt2'), 'unfocus_fixed_sampling': ('mdft.idft2', 'czt.iczt2')}
     for name, (m1, m2) in table.items():
         f = db.func('prysm.propagation.' + name)
-        calls = {}
-        for n in walk_no_nested(f.node):
-            if isinstance(n, ast.If):
-                t = n.test
-                if isinstance(t, ast.Compare) and ast.unparse(t.left) == 'method' and isinstance(t.comparators[0], ast.Constant):
-                    for c in walk_no_nested(ast.Module(body=n.body, type_ignores=[])):
-                        if isinstance(c, ast.Call) and ast.unparse(c.func) in (m1, m2, 'mdft.dft2', 'mdft.idft2', 'czt.czt2', 'czt.iczt2'):
-                            calls[t.comparators[0].value] = c
+        seen = {}
         for meth, want in (('mdft', m1), ('czt', m2)):
-            c = calls.get(meth)
-            run.check(c is not None and ast.unparse(c.func) == want, 'C01.dispatch', f.qual, "method == '%s'" % meth, "'%s' dispatches to %s" % (meth, want),
-                      "'%s' dispatches to %s, expected %s" % (meth, ast.unparse(c.func) if c is not None else None, want), f.loc())
-        if len(calls) == 2:
-            def argmap(c):
-                d = {k.arg: ast.unparse(k.value) for k in c.keywords}
-                for i, a in enumerate(c.args):
-                    d[('ary', 'Q', 'samples_out', 'shift')[i]] = ast.unparse(a)
-                return d
-            a, b = argmap(calls['mdft']), argmap(calls['czt'])
+            it, dom = norm_interp(db)
+            og = dom.getattr
+
+            def getattr_(v, nm, node, dom=dom, og=og):
+                if nm == 'shape' and dom.rat(v) is not None and dom.rat(v).key() == 'ary':
+                    return Tup([dom.sym('n0'), dom.sym('n1')])
+                return og(v, nm, node)
+            dom.getattr = getattr_
+            dom.nonzero = {'sx', 'sy'}
+            kw = {'wavefunction': dom.sym('ary'), 'input_dx': dom.sym('input_dx'), 'prop_dist': dom.sym('prop_dist'), 'wavelength': dom.sym('wavelength'), 'output_dx': dom.sym('output_dx'),
+                  'output_samples': Tup([dom.sym('M0'), dom.sym('M1')]), 'shift': Tup([dom.sym('sx'), dom.sym('sy')]), 'method': Const(meth)}
+            kw = {k: v for k, v in kw.items() if k in f.params}
+            paths, calls = capture_calls(it, dom, f, lambda: dict(kw), set(engines), lambda f_, b_: dom.sym('OUT'))
+            rets = [p for p in paths if p.outcome == 'return']
+            if not rets:
+                raise AnalysisError("%s(method='%s'): no returning path" % (f.qual, meth))
+            reached = sorted({engines[c_[0].qual] for c_ in calls})
+            if not reached:
+                raise AnalysisError("%s(method='%s'): no transform engine is reached (the dispatch is not followed)" % (f.qual, meth))
+            run.check(reached == [want], 'C01.dispatch', f.qual, "method == '%s'" % meth, "'%s' dispatches to %s" % (meth, want),
+                      "'%s' dispatches to %s, expected %s" % (meth, reached, want), f.loc())
+
+            def keyv(v, dom=dom):
+                if isinstance(v, Tup):
+                    return '(%s)' % ','.join(keyv(x) for x in v.items)
+                r = dom.rat(v)
+                return r.key() if r is not None else repr(v)
+            for c_ in calls:
+                if engines[c_[0].qual] == want:
+                    b = c_[1]
+                    seen[meth] = {'ary': keyv(b.get('ary')), 'Q': keyv(b.get('Q')), 'samples_out': keyv(b.get('samples_out')), 'shift': keyv(b.get('shift'))}
+        if len(seen) == 2:
+            a, b = seen['mdft'], seen['czt']
+            if any('Unknown' in str(x) for x in list(a.values()) + list(b.values())):
+                raise AnalysisError('%s: the arguments handed to the engines are not followed (%s / %s)' % (f.qual, a, b))
             run.check(a == b, 'C01.dispatch', f.qual, 'same arguments', 'both engines receive the same (ary, Q, samples_out, shift)',
                       'engines receive different arguments: mdft %s vs czt %s' % (a, b), f.loc())
 
